@@ -106,7 +106,10 @@ def random_case(rng, tier):
             ops.append(['advance', rng.randint(1, 6)])
         else:
             ops.append(['restart'])
-    return {'pid_kind': rng.choice(['int', 'uuid', 'str']), 'programs': progs, 'ops': ops, 'faults': faults}
+    case = {'pid_kind': rng.choice(['int', 'uuid', 'str']), 'programs': progs, 'ops': ops, 'faults': faults}
+    if rng.random() < 0.3:
+        case['instances'] = [rng.randrange(2) for _ in range(rng.randint(2, 7))]  # which of two pickle persisters each call uses
+    return case
 
 
 def shrink(case):
@@ -184,6 +187,25 @@ def _call(fn, *args):
         return ('raises', exc)
 
 
+class _SeveralInstances:
+    """Two PicklePersister objects on one directory (two workers sharing a checkpoint directory): every call goes to the one
+    the case's pattern names - the store is the directory, not the object."""
+
+    def __init__(self, instances, pattern):
+        self._instances, self._pattern, self._calls = instances, pattern, 0
+
+    def __getattr__(self, name):
+        instance = self._instances[self._pattern[self._calls % len(self._pattern)] % len(self._instances)]
+        self._calls += 1
+        return getattr(instance, name)
+
+
+def _pickle_store(plumpy, directory, pattern):
+    if not pattern:
+        return plumpy.PicklePersister(directory)
+    return _SeveralInstances([plumpy.PicklePersister(directory), plumpy.PicklePersister(directory)], pattern)
+
+
 def run(case):
     result = Result()
     plumpy = common.plumpy()
@@ -215,7 +237,7 @@ def run(case):
             procs.append(proc)
             loop.create_task(proc.step_until_terminated())
         memory = plumpy.InMemoryPersister()
-        pickles = plumpy.PicklePersister(directory)
+        pickles = _pickle_store(plumpy, directory, case.get('instances'))
         model = {}  # (pid, tag) -> canonical snapshot
         history = {}  # (pid, tag) -> list of every canonical snapshot ever saved under the key
         suspect = set()  # keys whose last save was hit by an injected fault (relaxed oracle applies to them)
@@ -229,6 +251,8 @@ def run(case):
         for op_index, op in enumerate(case['ops']):
             name = op[0]
             result.counters[f'op:{"save" if name == "save_fault" else name}'] += 1
+            if case.get('instances') and op_index == 0:
+                result.counters['probe:two_pickle_persisters_on_one_directory'] += 1
             events.append(('op', op_index, name))
             if name in ('save', 'save_fault'):
                 proc, tag = procs[op[1]], tags[op[2]]
@@ -401,7 +425,7 @@ def run(case):
                     for key in progressed_since_save:
                         progressed_since_save[key] = True
             elif name == 'restart':
-                pickles = plumpy.PicklePersister(directory)
+                pickles = _pickle_store(plumpy, directory, case.get('instances'))
             else:
                 raise ValueError(name)
 
